@@ -27,6 +27,8 @@
 import CdnsVerif.Proofs.Keys
 import CdnsVerif.Props.C12
 import CdnsVerif.Proofs.BuilderReach
+import CdnsVerif.Model.Resolve
+import CdnsVerif.Generated.Hints
 
 namespace CdnsVerif.Props.C04
 open CdnsVerif.Proofs.Keys CdnsVerif.Model.Exporter
@@ -185,5 +187,57 @@ example : (build ⟨4, 0, 0, 0, 1000⟩ [.qr sampleG none]).qrs = [{ cport := so
 open CdnsVerif.Model.Builder in
 example : (build ⟨16 + 4096, 1 + 256, 1, 0, 1000⟩ [.qr sampleG none]).sig = [{ sai := some 0, cti := some 0 }] ∧
     (build ⟨16 + 4096, 1 + 256, 1, 0, 1000⟩ [.qr sampleG none]).rr = [{ name := 0, ct := 0, ttl := some 300, rdata := none }] := by decide
+
+/-! ### the RFC reading of the hints against what the library does (translator T4)
+
+  `Generated.hintProbes` is regenerated on every run: a query/response with EVERY member set, a malformed message and an
+  address event go through the working tree's own exporter and reader under 77 hint configurations (all bits, none, every
+  single bit cleared, every single bit alone); the table says which members came back.  `project` – the function the
+  record-level theorems of C01 and the oracle of this property use for "what the hints let through" – must say the same. -/
+
+open CdnsVerif.Model.Builder CdnsVerif.Model.Timestamp in
+def probeRR (n : Nat) : GRR := { name := [n], type := 1, cls := 1, ttl := some 300, rdata := some [1, 2, 3, 4] }
+
+open CdnsVerif.Model.Builder CdnsVerif.Model.Timestamp in
+/-- the record of tools/t4_probe.cpp: every member present -/
+def probeQR : GQR :=
+  { ts := some ⟨100, 5⟩, clientIp := some [10, 0, 0, 1], clientPort := some 1234, transactionId := some 77,
+    serverIp := some [10, 0, 0, 2], serverPort := some 53, transportFlags := some 1, qrType := some 1, sigFlags := some 3,
+    opcode := some 0, dnsFlags := some 5, queryRcode := some 0, classtype := some (1, 1), qdcount := some 1, ancount := some 2,
+    nscount := some 3, arcount := some 4, ednsVersion := some 0, udpSize := some 1232, optRdata := some [111, 112, 116],
+    responseRcode := some 3, hoplimit := some 64, responseDelay := some (-5), queryName := some [3, 119, 119, 119, 0],
+    querySize := some 40, responseSize := some 80, bailiwick := some [3, 99, 111, 109, 0], processingFlags := some 1,
+    queryQuestions := some [probeRR 1], queryAnswers := some [probeRR 2], queryAuthority := some [probeRR 3],
+    queryAdditional := some [probeRR 4], responseQuestions := some [probeRR 5], responseAnswers := some [probeRR 6],
+    responseAuthority := some [probeRR 7], responseAdditional := some [probeRR 8],
+    asn := some [65], countryCode := some [67, 90], roundTripTime := some 9 }
+
+open CdnsVerif.Model.Builder CdnsVerif.Model.Timestamp in
+/-- which members the RFC reading of the hints lets through, in the order of the probe's report -/
+def probePresence (qrh sigh rrh odh : Nat) : List Bool :=
+  let h : Hints := ⟨qrh, sigh, rrh, odh, 1⟩
+  let p := project h probeQR
+  let mm : GMM := { ts := some ⟨101, 0⟩, clientIp := some [10, 0, 0, 3], payload := some [106] }
+  let ae : GAEC := ⟨0, none, none, [10, 0, 0, 4]⟩
+  let firstAnswer := p.queryAnswers.bind (·.head?)
+  [p.ts.isSome, p.clientIp.isSome, p.clientPort.isSome, p.transactionId.isSome, p.serverIp.isSome, p.serverPort.isSome,
+   p.transportFlags.isSome, p.qrType.isSome, p.sigFlags.isSome, p.opcode.isSome, p.dnsFlags.isSome, p.queryRcode.isSome,
+   p.classtype.isSome, p.qdcount.isSome, p.ancount.isSome, p.nscount.isSome, p.arcount.isSome, p.ednsVersion.isSome,
+   p.udpSize.isSome, p.optRdata.isSome, p.responseRcode.isSome, p.hoplimit.isSome, p.responseDelay.isSome, p.queryName.isSome,
+   p.querySize.isSome, p.responseSize.isSome, p.bailiwick.isSome, p.processingFlags.isSome, p.queryQuestions.isSome,
+   p.queryAnswers.isSome, p.queryAuthority.isSome, p.queryAdditional.isSome, p.responseQuestions.isSome, p.responseAnswers.isSome,
+   p.responseAuthority.isSome, p.responseAdditional.isSome, p.asn.isSome, p.countryCode.isSome, p.roundTripTime.isSome,
+   (firstAnswer.bind (·.ttl)).isSome, (firstAnswer.bind (·.rdata)).isSome,
+   !(expectedMms h [.mm mm none]).isEmpty, decide (timesBuffered h [.aec ae none] ae > 0)]
+
+/-- **What the hints let through in the code is what the RFC reading says** – for every probed configuration (all bits, none,
+    each bit cleared, each bit alone, per mask) the members the working tree's exporter + reader return for a full record are
+    exactly those `project` keeps; malformed messages and address events come back exactly when their bit is set. -/
+theorem hint_probes_match_projection :
+    (Generated.hintProbes.all fun r => probePresence r.1 r.2.1 r.2.2.1 r.2.2.2.1 == r.2.2.2.2) = true := by
+  decide +kernel
+
+/-- the probe table is not trivial: it holds the all-set, the all-clear and a configuration per bit -/
+theorem hint_probes_cover : 77 ≤ Generated.hintProbes.length := by decide +kernel
 
 end CdnsVerif.Props.C04
